@@ -17,7 +17,7 @@ TNext ==
      \/ Ev.ev = "put" /\ PPut(Ev)
      \/ Ev.ev = "get" /\ PGet(Ev)
      \/ Ev.ev = "delete" /\ PDelete(Ev)
-     \/ Ev.ev \in {"broken", "nosession", "other"} /\ PNote
+     \/ Ev.ev \in {"broken", "nosession", "other", "auth"} /\ PNote
      \/ Ev.ev = "result" /\ PResult(Ev)
 TSpec == TInit /\ [][TNext]_<<pvars, l>>
 HW == TLCSet(1, IF TLCGet(1) > l THEN TLCGet(1) ELSE l)
